@@ -60,6 +60,15 @@ static int spurBudget, eintrBudget, nextTid = -1;
 static char trace[1 << 17]; static int tracen;
 static char flags[256];
 static long waitSeqCounter;
+// object lifetime: an operation on a destroyed mutex / condition variable is undefined in POSIX; it is flagged in the verdict
+static void* destroyed[64]; static int ndestroyed;
+static void markDestroyed(void* p) { if(ndestroyed < 64) destroyed[ndestroyed++] = p; }
+static void markAlive(void* p) { for(int i = 0; i < ndestroyed; ++i) if(destroyed[i] == p) destroyed[i] = destroyed[--ndestroyed]; }
+static void checkAlive(void* p, const char* what)   // G held
+{
+  for(int i = 0; i < ndestroyed; ++i)
+    if(destroyed[i] == p && strlen(flags) + strlen(what) + 24 < sizeof(flags)) { strcat(flags, " !use-after-destroy:"); strcat(flags, what); return; }
+}
 static unsigned long long rs; static bool randomMode;
 static unsigned long long rnd() { rs ^= rs << 13; rs ^= rs >> 7; rs ^= rs << 17; return rs >> 11; }
 
@@ -216,6 +225,7 @@ extern "C" {
 int nv_pthread_mutex_init(pthread_mutex_t* m, const pthread_mutexattr_t* a)
 {
   pthread_mutex_lock(&G);
+  markAlive(m);
   VMutex* v = M(m); v->owner = -1; v->count = 0;
   int type = PTHREAD_MUTEX_DEFAULT;
   if(a) pthread_mutexattr_gettype(a, &type);
@@ -225,17 +235,17 @@ int nv_pthread_mutex_init(pthread_mutex_t* m, const pthread_mutexattr_t* a)
 }
 int nv_pthread_mutex_destroy(pthread_mutex_t* m)
 {
-  pthread_mutex_lock(&G); VMutex* v = M(m); int r = v->owner == -1 ? 0 : EBUSY; pthread_mutex_unlock(&G); return r;
+  pthread_mutex_lock(&G); VMutex* v = M(m); int r = v->owner == -1 ? 0 : EBUSY; if(r == 0) markDestroyed(m); pthread_mutex_unlock(&G); return r;
 }
 int nv_pthread_mutex_lock(pthread_mutex_t* m)
 {
-  pthread_mutex_lock(&G); point(OP_LOCK, m);
+  pthread_mutex_lock(&G); point(OP_LOCK, m); checkAlive(m, "mutex_lock");
   VMutex* v = M(m); v->owner = self; v->count++;
   pthread_mutex_unlock(&G); return 0;
 }
 int nv_pthread_mutex_trylock(pthread_mutex_t* m)
 {
-  pthread_mutex_lock(&G); point(OP_TRYLOCK, m);
+  pthread_mutex_lock(&G); point(OP_TRYLOCK, m); checkAlive(m, "mutex_trylock");
   VMutex* v = M(m); int r = EBUSY;
   if(lockable(v, self)) { v->owner = self; v->count++; r = 0; }
   pthread_mutex_unlock(&G); return r;
@@ -243,19 +253,21 @@ int nv_pthread_mutex_trylock(pthread_mutex_t* m)
 int nv_pthread_mutex_unlock(pthread_mutex_t* m)
 {
   pthread_mutex_lock(&G); point(OP_UNLOCK, m);   // only enabled for the owner (unlock by a non-owner: client error, never scheduled)
+  checkAlive(m, "mutex_unlock");
   VMutex* v = M(m); if(--v->count == 0) v->owner = -1;
   pthread_mutex_unlock(&G); return 0;
 }
-int nv_pthread_cond_init(pthread_cond_t*, const pthread_condattr_t*) { return 0; }
+int nv_pthread_cond_init(pthread_cond_t* c, const pthread_condattr_t*) { pthread_mutex_lock(&G); markAlive(c); pthread_mutex_unlock(&G); return 0; }
 int nv_pthread_cond_destroy(pthread_cond_t* c)
 {
-  pthread_mutex_lock(&G); int r = waitersOf(c, 0) ? EBUSY : 0; pthread_mutex_unlock(&G); return r;
+  pthread_mutex_lock(&G); int r = waitersOf(c, 0) ? EBUSY : 0; if(r == 0) markDestroyed(c); pthread_mutex_unlock(&G); return r;
 }
 static int cwait(pthread_cond_t* c, pthread_mutex_t* m, const struct timespec* ts)
 {
   pthread_mutex_lock(&G);
   setDeadline(ts);
   point(OP_CWAIT_ENTER, c, m);                   // only enabled while the caller owns m
+  checkAlive(c, "cond_wait");
   if(!th[self].tsValid) { pthread_mutex_unlock(&G); return EINVAL; }
   VMutex* v = M(m); int saved = v->count; v->count = 0; v->owner = -1;   // atomically release and join the wait set
   th[self].waitSeq = ++waitSeqCounter;
@@ -276,6 +288,7 @@ int nv_pthread_cond_signal(pthread_cond_t* c)
 {
   pthread_mutex_lock(&G);
   int alt = point(OP_SIGNAL, c);
+  checkAlive(c, "cond_signal");
   int w[SCHED_MAXT], n = waitersOf(c, w);
   if(n) { if(alt >= n) die("signal alternative"); th[w[alt]].pend = OP_RELOCK; }   // wakes exactly the chosen waiter
   pthread_mutex_unlock(&G); return 0;
@@ -284,6 +297,7 @@ int nv_pthread_cond_broadcast(pthread_cond_t* c)
 {
   pthread_mutex_lock(&G);
   point(OP_BCAST, c);
+  checkAlive(c, "cond_broadcast");
   int w[SCHED_MAXT], n = waitersOf(c, w);
   for(int i = 0; i < n; ++i) th[w[i]].pend = OP_RELOCK;
   pthread_mutex_unlock(&G); return 0;
@@ -366,7 +380,7 @@ void sched_begin(int np, const int* pt, const int* pa, long sec, long nsec, long
   nprefix = np < SCHED_MAXPREFIX ? np : SCHED_MAXPREFIX;
   for(int i = 0; i < nprefix; ++i) { prefT[i] = pt[i]; prefA[i] = pa[i]; }
   stepIndex = 0; nowSec = sec; nowNsec = nsec; quantum = q; spurBudget = spur; eintrBudget = eintr;
-  waitSeqCounter = 0; nmtx = 0; nsems = 0; nth = 1; tracen = sprintf(trace, "init:"); flags[0] = 0; nextTid = -1;
+  ndestroyed = 0; waitSeqCounter = 0; nmtx = 0; nsems = 0; nth = 1; tracen = sprintf(trace, "init:"); flags[0] = 0; nextTid = -1;
   memset(th, 0, sizeof(th));
   th[0].used = true; sem_init(&th[0].go, 0, 0); self = 0;
 }
